@@ -105,8 +105,9 @@ structure Aligner where
   spec : ∀ {R ins out}, ins ≠ [] → StreamsOK R ins → run ins = .ok out →
     Aligned R out ∧ out.map rows = ins.map rows
 
-def Aligner.Total (a : Aligner) : Prop :=
-  ∀ R ins, ins ≠ [] → StreamsOK R ins → ∃ out, a.run ins = .ok out
+/-- totality for plugins with `k` dependencies (the half that D9 / D16 break for `Plugin.iter`) -/
+def Aligner.Total (a : Aligner) (k : Nat) : Prop :=
+  ∀ R ins, ins.length = k → ins ≠ [] → StreamsOK R ins → ∃ out, a.run ins = .ok out
 
 /-- A plugin kind: its chunked semantics on an aligned partition (`chunked`: one stream per
 dependency in, one stream per output out) and its whole-run meaning on unchunked rows. -/
@@ -213,7 +214,9 @@ def lookupW (w : WEnv) (d : String) : Except Err (List Row) :=
 def wholeNode (n : Node) (w : WEnv) : Except Err (List (List Row)) :=
   match mapE (lookupW w) n.deps with
   | .error e => .error e
-  | .ok ins => .ok (n.kernel.whole ins)
+  | .ok ins =>
+    if (n.kernel.whole ins).length = n.provides.length then .ok (n.kernel.whole ins)
+    else .error .other      -- a kernel whose whole-run meaning has the wrong number of outputs
 
 /-- every plugin's computation applied to the whole, unchunked run, in dependency order -/
 def whole : Graph → WEnv → Except Err WEnv
